@@ -1,4 +1,5 @@
 import Fzf.Lemmas.Render
+import Fzf.Generated.GoFuncs
 /-
 C15 — the screen shows the actual state.
 Property theorems only (helper lemmas: Fzf/Lemmas/Render.lean).
@@ -113,6 +114,15 @@ theorem C15_info_shows_counts (o : ROpts) (found total nsel : Nat) (hinfo : o.in
     (hfit : (infoText o found total nsel).length + 3 ≤ o.W) :
     ((infoRow o found total nsel).drop 2).take (infoText o found total nsel).length = infoText o found total nsel :=
   infoRow_counter o found total nsel hinfo hfit
+
+/-- The width arithmetic uses `util.Max` / `util.Min` as translated from the source on every run:
+    they are maximum and minimum. -/
+theorem C15_max_min_are_source (a b : Int) :
+    Generated.Go.Max a b = max a b ∧ Generated.Go.Min a b = min a b := by
+  unfold Generated.Go.Max Generated.Go.Min
+  constructor
+  · by_cases h : a ≥ b <;> simp [h] <;> omega
+  · by_cases h : a ≤ b <;> simp [h] <;> omega
 
 /- Non-vacuity: a concrete screen. -/
 example :
